@@ -1,6 +1,8 @@
 """Obligations, rule registry, known-findings handling, evidence and replay files."""
 from __future__ import annotations
 
+import re
+
 import hashlib
 import json
 import os
@@ -70,6 +72,14 @@ def _attr(file, line, where):
     return attribute(file, line, where)
 
 
+_TAG = re.compile(r"(?<=[A-Za-z0-9])__[A-Za-z][A-Za-z0-9_]*?\d+\b")
+
+
+def _untag(text: str) -> str:
+    """constructs and messages are reported in the source's own names (helper-inliner suffixes removed)"""
+    return _TAG.sub("", text) if isinstance(text, str) else text
+
+
 class Collector:
     """Passed to a rule; collects obligations and assumptions."""
     def __init__(self, rid: str):
@@ -79,17 +89,17 @@ class Collector:
         self.stats: Dict[str, int] = {}
 
     def ok(self, where: str, file: str, line: int, construct: str, msg: str = "", **extra) -> Ob:
-        o = Ob(self.rid, _attr(file, line, where), file, line, construct, OK, msg, extra)
+        o = Ob(self.rid, _attr(file, line, where), file, line, _untag(construct), OK, _untag(msg), extra)
         self.obs.append(o)
         return o
 
     def benign(self, where, file, line, construct, msg="", **extra) -> Ob:
-        o = Ob(self.rid, _attr(file, line, where), file, line, construct, BENIGN, msg, extra)
+        o = Ob(self.rid, _attr(file, line, where), file, line, _untag(construct), BENIGN, _untag(msg), extra)
         self.obs.append(o)
         return o
 
     def bad(self, where, file, line, construct, msg, **extra) -> Ob:
-        o = Ob(self.rid, _attr(file, line, where), file, line, construct, VIOLATED, msg, extra)
+        o = Ob(self.rid, _attr(file, line, where), file, line, _untag(construct), VIOLATED, _untag(msg), extra)
         self.obs.append(o)
         return o
 
